@@ -217,7 +217,7 @@ def gates(m, tier):
     missed = []
     for k in ('code_empty', 'code_no_final_newline', 'code_crlf', 'code_all_bytes', 'code_glyph_program', 'code_simple',
               'label_present', 'label_absent', 'entry_stream', 'entry_path', 'entry_cli', 'regions_uniform', 'regions_sparse',
-              'regions_structured', 'regions_zero', 'regions_ff'):
+              'regions_structured', 'regions_zero', 'regions_ff', 'regions_defaultish'):
         if f.get(k, 0) < 5:
             missed.append('%s seen %d times' % (k, f.get(k, 0)))
     if mon.get('round_trips_observed', 0) < 200 or mon.get('reference_reads_compared', 0) < 200:
